@@ -416,6 +416,12 @@ def constraints_of(d):
         while j < nefc and d["efc_type"][j] == d["efc_type"][i] and d["efc_id"][j] == d["efc_id"][i] and not (single and j > i):
             trees |= {d["dof_treeid"][k] for k in d["rowdofs"][j]}
             j += 1
+        if d["efc_type"][i] in CONTACT_TYPES:
+            # a contact couples the trees of its two bodies even where a Jacobian block happens to be exactly zero
+            # (e.g. a normal force through a hinge anchor): structural incidence from d->contact for geom-geom contacts
+            ct = d["contact_trees"][d["efc_id"][i]]
+            if -9 not in ct:
+                trees |= {t for t in ct if t >= 0}
         out.append((i, j - i, sorted(trees)))
         i = j
     return out
@@ -488,11 +494,7 @@ def scene_oracle(d):
     ntree, nv, nefc = d["ntree"], d["nv"], d["nefc"]
     cons = constraints_of(d)
     # the oracle's incidence must agree with the structural one for contacts, otherwise the configuration is degenerate
-    for (i, _nr, trees) in cons:
-        if d["efc_type"][i] in CONTACT_TYPES:
-            ct = d["contact_trees"][d["efc_id"][i]]
-            if -9 not in ct and sorted({t for t in ct if t >= 0}) != trees:
-                return "skip", "contact Jacobian has a structurally zero tree block"
+    for (_i, _nr, trees) in cons:
         if not trees:
             return "skip", "constraint row with all-zero Jacobian"
     if any(info[4] for info in d.get("flexinfo", [])):
@@ -537,8 +539,30 @@ def scene_oracle(d):
     return None, ""
 
 
+ISLAND_FUNCS = ("mj_island", "mj_dsuMerge", "mj_dsuRoot", "mj_dsuAssign", "mj_floodFill", "treeIterInit", "treeNext",
+                "unionConstraintTrees")
+
+
 def run_scenes(ctx, drv, impl, lines, label="mj_island on mjSpec scenes vs Lean pipeline"):
     rc, outs, err = ctx.run_lines([impl], lines)
+    if rc == 0 and len(outs) == len(lines):
+        # an error/crash while *stepping* cannot be attributed to island discovery: look at the same scene without steps
+        # (mj_fwdPosition only: constraints + mj_island); errors raised by the island code itself are kept
+        lines = list(lines)
+        redo = [k for k, (l, o) in enumerate(zip(lines, outs))
+                if (o.startswith("crash") or (o.startswith("engine-error") and not o[13:].startswith(ISLAND_FUNCS)))
+                and l.split()[9] != "0"]
+        if redo:
+            rl = []
+            for k in redo:
+                w = lines[k].split()
+                w[9] = "0"
+                rl.append(" ".join(w))
+            rc2, o2, _ = ctx.run_lines([impl], rl)
+            if rc2 == 0 and len(o2) == len(rl):
+                for k, l2, oo in zip(redo, rl, o2):
+                    ctx.extra.setdefault("unattributed_engine_errors_while_stepping", []).append({"line": lines[k], "output": outs[k][:160]})
+                    lines[k], outs[k] = l2, oo
     if rc != 0 or len(outs) != len(lines):
         k = min(len(outs), len(lines) - 1)
         ctx.oracle_failure("c17:scene-crash", "engine crashed on a generated scene (rc=%s)" % rc,
@@ -558,6 +582,12 @@ def run_scenes(ctx, drv, impl, lines, label="mj_island on mjSpec scenes vs Lean 
                 ctx.oracle_failure("c17:scene-crash", "the engine crashed on a generated scene (%s)" % o,
                                    {"line": l, "replay": "echo '%s' | <c17_island harness>" % l})
             continue
+        if o.startswith("engine-error") and not o[13:].startswith(ISLAND_FUNCS):
+            # resource exhaustion etc. before islands are built at step 0: nothing to judge
+            stats["skipped"] += 1
+            stats.setdefault("skip_reasons", {})
+            stats["skip_reasons"][o[:60]] = stats["skip_reasons"].get(o[:60], 0) + 1
+            continue
         if o.startswith("engine-error"):
             stats["engine_error"] += 1
             nfail += 1
@@ -569,6 +599,8 @@ def run_scenes(ctx, drv, impl, lines, label="mj_island on mjSpec scenes vs Lean 
         verdict, detail = scene_oracle(d)
         if verdict == "skip":
             stats["skipped"] += 1
+            stats.setdefault("skip_reasons", {})
+            stats["skip_reasons"][detail] = stats["skip_reasons"].get(detail, 0) + 1
             continue
         stats["with_islands"] += d["nisland"] > 0
         stats["multi_island"] += d["nisland"] > 1
